@@ -390,7 +390,7 @@ integer_class GaloisFieldDict::gf_eval(const integer_class &a) const
     for (auto rit = dict_.rbegin(); rit != dict_.rend(); ++rit) {
         res *= a;
         res += (*rit);
-        res %= modulo_;
+        mp_fdiv_r(res, res, modulo_);
     }
     return res;
 }
